@@ -287,8 +287,117 @@ def r3_sysctl_source(ctx):
     return out
 
 
+def r4_live_inputs(ctx):
+    """The table of R1 is only as good as what is fed into it.  (a) the caller's identity is asked from the kernel at
+    every check: syscalls::geteuid returns the result of the geteuid system call and reads no static (a cached uid
+    is wrong after seteuid/setresuid).  (b) `uid()`/`mode()` of the crate's Metadata are the st_uid/st_mode fields
+    of the stat result it wraps (not a neighbour such as st_gid).  (c) the cached sysctl has no fail-open default: the
+    value is what sysctl_read_parse returned -- a constant 0 standing in for an unreadable sysctl disables the policy
+    where the kernel enforces it."""
+    F = ctx.facts
+    T = ctx.tracer
+    out = []
+    g = "syscalls::geteuid"
+    if not F.has(g):
+        out.append(violated("C15.R4", "geteuid:live", "", "%s not found" % g))
+    else:
+        b = F.body(g)
+        ro = T.return_origins(b)
+
+        def from_syscall(o, depth=0):
+            if o.kind != "call" or depth > 3:
+                return False
+            c = o.term.callee or ""
+            if c in ("rustix::process::geteuid", "libc::geteuid", "rustix::process::getuid_euid"):
+                return True
+            if c.endswith("::as_raw") or c.endswith("::into") or c.endswith("::from"):
+                inner = T.origins_of_arg(o.term, 0)
+                return bool(inner) and all(from_syscall(x, depth + 1) for x in inner)
+            return False
+
+        if ro and all(from_syscall(o) for o in ro):
+            out.append(holds("C15.R4", "geteuid:live", b.where(), "every call asks the kernel (rustix::process::geteuid)"))
+        else:
+            out.append(violated("C15.R4", "geteuid:live", b.where(), "the caller's uid does not come straight from the geteuid system call (%s): a value cached across seteuid()/setresuid() judges links by the wrong user" % sorted({repr(o) for o in ro})[:3]))
+    for acc, fld in (("uid", "st_uid"), ("mode", "st_mode")):
+        fn = "<utils::fd::Metadata as rustix::fs::MetadataExt>::%s" % acc
+        key = "Metadata::%s:field" % acc
+        if not F.has(fn):
+            out.append(violated("C15.R4", key, "", "%s not found" % fn))
+            continue
+        b = F.body(fn)
+        ro = T.return_origins(b)
+
+        def field_of(o, depth=0):
+            if o.kind == "param" and o.detail == 1:
+                return {o.fpath[-1]} if o.fpath else {"?"}
+            if o.kind == "call" and depth < 3 and ((o.term.callee or "").endswith(("::into", "::from", "::try_into", "::unwrap", "::clone"))):
+                r = set()
+                for x in T.origins_of_arg(o.term, 0):
+                    r |= field_of(x, depth + 1)
+                return r or {"?"}
+            if o.kind == "expr" and (o.detail or "").startswith("cast") and o.stmt is not None and depth < 3:
+                pos = [(bl.idx, i) for bl in b.blocks for i, st in enumerate(bl.stmts) if st is o.stmt]
+                r = set()
+                if pos:
+                    for x in T.origins_of_operand(b, pos[0][0], pos[0][1], o.stmt.rv_operands()[0]):
+                        r |= field_of(x, depth + 1)
+                return r or {"?"}
+            return {repr(o)}
+
+        flds = set()
+        for o in ro:
+            flds |= {str(x) for x in field_of(o)}
+        if flds == {fld}:
+            out.append(holds("C15.R4", key, b.where(), "%s() is the %s field of the wrapped stat result" % (acc, fld)))
+        else:
+            out.append(violated("C15.R4", key, b.where(), "%s() of the crate's Metadata returns %s, not %s" % (acc, sorted(flds), fld)))
+    cls = F.closures_of("resolvers::opath::imp::PROTECTED_SYMLINKS_SYSCTL")
+    key = "sysctl:no-fail-open-default"
+    if not cls:
+        out.append(violated("C15.R4", key, "", "initialiser of PROTECTED_SYMLINKS_SYSCTL not found"))
+    def expand(o, depth=0):
+        """look through the combinators that supply a fallback value"""
+        if o.kind != "call" or depth > 4:
+            return [o]
+        m = (o.term.callee or "").rsplit("::", 1)[-1]
+        if m in ("unwrap_or", "map_or"):
+            res = []
+            for i in range(len(o.term.args)):
+                for x in T.origins_of_arg(o.term, i):
+                    res.extend(expand(x, depth + 1))
+            return res
+        if m in ("unwrap_or_default",):
+            return ["default"] + [y for x in T.origins_of_arg(o.term, 0) for y in expand(x, depth + 1)]
+        if m in ("unwrap_or_else", "map_or_else", "or_else"):
+            res = [y for x in T.origins_of_arg(o.term, 0) for y in expand(x, depth + 1)]
+            for a in T.origins_of_arg(o.term, 1):
+                if a.kind == "agg" and a.detail and a.detail.startswith("closure ") and F.has(a.detail[len("closure "):]):
+                    for x in T.return_origins(F.body(a.detail[len("closure "):])):
+                        res.extend(expand(x, depth + 1))
+            return res
+        if m in ("unwrap", "expect", "ok", "into", "from"):
+            inner = [y for x in T.origins_of_arg(o.term, 0) for y in expand(x, depth + 1)]
+            return inner or [o]
+        return [o]
+
+    for cb in cls[:1]:
+        ro = [y for o in T.return_origins(cb) for y in expand(o)]
+        zero = [o for o in ro if o == "default" or (o.kind == "const" and o.const_int() == 0)]
+        ro = [o for o in ro if o != "default"]
+        reads = [o for o in ro if o.kind == "call"]
+        if zero:
+            out.append(violated("C15.R4", key, cb.where(), "an unreadable fs.protected_symlinks is replaced by the constant 0: the emulated resolver then follows every link where the kernel (sysctl = 1) refuses"))
+        elif not reads:
+            out.append(violated("C15.R4", key, cb.where(), "the cached value does not come from reading the sysctl: %s" % sorted({repr(o) for o in ro})[:3]))
+        else:
+            out.append(holds("C15.R4", key, cb.where(), "cached value = what was read; no constant 0 default"))
+    return out
+
+
 RULES = [
     ("C15.R1", r1_decision_table, 3, False),
     ("C15.R2", r2_call_placement, 2, False),
     ("C15.R3", r3_sysctl_source, 2, False),
+    ("C15.R4", r4_live_inputs, 4, False),
 ]
